@@ -35,6 +35,7 @@ pub fn run<T: W>(r1: usize, c1: usize, shapes_b: &[(usize, usize)], seed: u64, w
     let coded2: Code = if wide { coded2_w } else { coded2 };
     let long = |n: usize| wide && n >= crate::LONG_MIN;
     let (r2, c2) = shapes_b[mc::choose(shapes_b.len())];
+    set_long_case(wide && r1.max(c1).max(r2).max(c2) >= crate::LONG_MIN);
     let fa = mc::choose(4);
     let same_size = r1 * c1 == r2 * c2 && (r1, c1) != (r2, c2);
     let fb = mc::choose(if same_size { 4 } else { 3 });
